@@ -1,0 +1,14 @@
+//go:build verif
+// +build verif
+
+package txhash
+
+import (
+	pb "github.com/xuperchain/xupercore/bcs/ledger/xledger/xldgpb"
+)
+
+// EncodeTxDataForVerif exposes the version-1/2 pre-image (the JSON stream hashed by MakeTransactionID and
+// MakeTxDigestHash) to the verification harness (check C07 tokenises it).
+func EncodeTxDataForVerif(tx *pb.Transaction, includeSigns bool) ([]byte, error) {
+	return encodeTxData(tx, includeSigns)
+}
